@@ -161,6 +161,11 @@ func writeCategoryNameFile(catName, dirName string) error {
 // AddTimeBucket adds a (possibly) new data item to a rootpath. Takes an existing catalog directory and
 // adds the new data item to that data directory. This is used only for a root category directory.
 func (d *Directory) AddTimeBucket(tbk *io.TimeBucketKey, f *io.TimeBucketInfo) (err error) {
+	// a schema that does not fit the file header would silently come back different
+	if err = io.CheckHeaderCapacity(f); err != nil {
+		return fmt.Errorf("bucket schema cannot be stored: %w", err)
+	}
+
 	d.Lock()
 	defer d.Unlock()
 
